@@ -98,9 +98,11 @@ func prepObject() interface{} {
 
 // finals: shapes of the last script, by size.
 var prepFinals = map[string]func(n int) string{
-	"parentheses":   func(n int) string { return "return " + rep("(", n) + "x" + rep(")", n) + ";" },
-	"unary-minus":   func(n int) string { return "return " + rep("- ", n) + "x;" },
-	"if-nesting":    func(n int) string { return rep("if ( t ) { ", n) + "return x;" + rep(" }", n) + "\nreturn \"fell through\";" },
+	"parentheses": func(n int) string { return "return " + rep("(", n) + "x" + rep(")", n) + ";" },
+	"unary-minus": func(n int) string { return "return " + rep("- ", n) + "x;" },
+	"if-nesting": func(n int) string {
+		return rep("if ( t ) { ", n) + "return x;" + rep(" }", n) + "\nreturn \"fell through\";"
+	},
 	"array-nesting": func(n int) string { return "return len(" + rep("[", n) + "x" + rep("]", n) + ");" },
 	"sum-chain":     func(n int) string { return "return x" + rep(" + one", n) + ";" },
 	"and-chain":     func(n int) string { return "return t" + rep(" && t", n) + ";" },
@@ -132,11 +134,13 @@ var prepFinals = map[string]func(n int) string{
 	// small scripts that ask for what an earlier script defined (n is ignored)
 	"calls-leftover-function": func(n int) string { return "return zg();" },
 	"redefines-function":      func(n int) string { return "function zf(a) { return \"new\"; }\nreturn [zf(1), zf(2)];" },
-	"uses-ternary":            func(n int) string { return "function zt(a) { local b; b = a ? 1 : 2; return b; }\nreturn [t ? x : 0, zt(t), (x == 7) ? \"y\" : \"n\"];" },
-	"local-outside-function":  func(n int) string { return "local zl; return true;" },
-	"nested-ternary":          func(n int) string { return "return t ? (t ? 1 : 2) : 3;" },
-	"reads-members":           func(n int) string { return "return [Name, Logins, Secret, \"lit\", \"other\", 70000, 80000];" },
-	"same-constants":          func(n int) string { return "return [1, 2.5, \"a\", \"zq\", 70000, 70001, \"zg\", \"stale\"];" },
+	"uses-ternary": func(n int) string {
+		return "function zt(a) { local b; b = a ? 1 : 2; return b; }\nreturn [t ? x : 0, zt(t), (x == 7) ? \"y\" : \"n\"];"
+	},
+	"local-outside-function": func(n int) string { return "local zl; return true;" },
+	"nested-ternary":         func(n int) string { return "return t ? (t ? 1 : 2) : 3;" },
+	"reads-members":          func(n int) string { return "return [Name, Logins, Secret, \"lit\", \"other\", 70000, 80000];" },
+	"same-constants":         func(n int) string { return "return [1, 2.5, \"a\", \"zq\", 70000, 70001, \"zg\", \"stale\"];" },
 }
 
 var prepFinalNames = []string{"parentheses", "unary-minus", "if-nesting", "array-nesting", "sum-chain", "and-chain", "statements", "function-body",
